@@ -246,3 +246,37 @@ Proof.
   unfold quad_row_ok in H. cbn [fst snd] in H. rewrite forallb_forall in H.
   apply Qeq_bool_eq. apply H. apply in_seq. lia.
 Qed.
+
+(* ---- bushy trees: elementary weight = power of the row sum (unbounded, every matrix) ---- *)
+Lemma Forall2_Qeq_refl l : Forall2 Qeq l l.
+Proof. induction l; constructor; [reflexivity|assumption]. Qed.
+
+Lemma graft_leaf_pointwise (f g : list Q -> Q) : forall (a : list (list Q)) (x : list Q),
+  Forall2 Qeq x (map f a) ->
+  Forall2 Qeq (map (fun p => qm (fst p) (g (snd p))) (combine x a)) (map (fun r => qm (g r) (f r)) a).
+Proof.
+  induction a as [|r a IH]; intros x Hx; inversion Hx as [|x0 y0 xs ys Hxy Hrest]; subst; cbn [combine map].
+  - constructor.
+  - constructor; [cbn [fst snd]; rewrite !qm_ok, Hxy; ring | apply IH; assumption].
+Qed.
+
+Lemma bushy_order n : order (bushy n) = S n.
+Proof. induction n as [|n IH]; cbn [bushy order]; [reflexivity|lia]. Qed.
+
+Lemma bushy_cprod n : (cprod (bushy n) == 1)%Q.
+Proof.
+  induction n as [|n IH]; cbn [bushy cprod order]; [reflexivity|].
+  rewrite !qm_ok, IH. reflexivity.
+Qed.
+
+Lemma bushy_gamma n : (gamma (bushy n) == inject_Z (Z.of_nat (S n)))%Q.
+Proof. unfold gamma. rewrite qm_ok, bushy_cprod, bushy_order. ring. Qed.
+
+Lemma bushy_Phi a n :
+  Forall2 Qeq (Phi a (bushy n)) (map (fun r => qpow (dotq r (ones a)) n) a).
+Proof.
+  induction n as [|n IH].
+  - cbn [bushy Phi qpow]. apply Forall2_Qeq_refl.
+  - cbn [bushy Phi qpow].
+    exact (graft_leaf_pointwise (fun r => qpow (dotq r (ones a)) n) (fun r => dotq r (Phi a Tau)) a _ IH).
+Qed.
